@@ -608,11 +608,33 @@ def _set_seg(r, seg, from_end):
     r.segax = ax
 
 
+def origin_of(va, vb, r):
+    """origin position of an elementwise combination of arrays"""
+    if not isinstance(r, Num):
+        return
+    oa = va.org if isinstance(va, Num) and va.is_array else None
+    ob = vb.org if isinstance(vb, Num) and vb.is_array else None
+    a_arr = isinstance(va, Num) and va.is_array
+    b_arr = isinstance(vb, Num) and vb.is_array
+    if a_arr and b_arr:
+        if oa is None or ob is None:
+            r.org = None
+        elif oa == 'conflict' or ob == 'conflict' or oa != ob:
+            r.org = 'conflict'
+        else:
+            r.org = oa
+    elif a_arr:
+        r.org = oa
+    elif b_arr:
+        r.org = ob
+
+
 def e_BinOp(self, n, st):
     a = self.eval(n.left, st)
     b = self.eval(n.right, st)
     r = self.binop(n.op, a, b, n)
     elementwise_seg(n.op, a, b, r)
+    origin_of(a, b, r)
     return r
 
 
@@ -688,6 +710,11 @@ def compare_vals(self, op, a, b, node):
     if isinstance(a, (ExtV, ClsV, Opaque)) or isinstance(b, (ExtV, ClsV, Opaque)):
         if isinstance(a, ExtV) and isinstance(b, ExtV):
             return Const((a.dotted == b.dotted) == isinstance(op, ast.Eq), t)
+        for x, y in ((a, b), (b, a)):
+            if isinstance(x, Opaque) and x.what.startswith('dtype:') and isinstance(y, ExtV) and x.what != 'dtype:?' \
+                    and y.base in ('complex', 'float', 'complex128', 'float64'):
+                same = (x.what == 'dtype:complex') == y.base.startswith('complex')
+                return Const(same == isinstance(op, ast.Eq), t)
         if isinstance(a, Opaque) and isinstance(b, ExtV) and a.what.startswith('type:'):
             same = a.what[5:] == b.base
             return Const(same == isinstance(op, ast.Eq), t)
@@ -1167,6 +1194,12 @@ def index_value(self, v, idx, node):
                     t |= ni.taint
                 elif ni is not None and ni.shape is not None:
                     out.extend(ni.shape)
+                    if len(shape) == 1 and nv.org is not None and ni.org is not None and 'conflict' not in (nv.org, ni.org):
+                        fancy = nv.org + ni.org
+                    elif len(shape) == 1 and 'conflict' in (nv.org, ni.org):
+                        fancy = 'conflict'
+                    else:
+                        fancy = 'none'
                 else:
                     out.append(None)
                 ax += 1
@@ -1178,6 +1211,10 @@ def index_value(self, v, idx, node):
         out.extend(shape[ax:])
         r = nv.copy(shape=tuple(out), taint=t)
         r.ex = None
+        if fancy is not None:
+            r.org = None if fancy == 'none' else fancy
+        elif any(isinstance(ix, SliceV) for ix in idxs):
+            r.org = None
         if nv.seg is not None and len(shape) == 1 and len(idxs) == 1:
             from . import segmap
             ix = idxs[0]
